@@ -97,3 +97,39 @@ func VP_C10_Genuine_n2() { vpC10Genuine(2) }
 func VP_C10_Genuine_n3() { vpC10Genuine(3) }
 func VP_C10_Genuine_n4() { vpC10Genuine(4) }
 func VP_C10_Genuine_n5() { vpC10Genuine(5) }
+
+// C10-H1c: the path is bound too: a proof that verifies against the root carries exactly the aunts of
+// the genuine proof for its index (same number, same bytes, same lengths).  The candidate proof has
+// arbitrary 32-byte aunts, one of which may be longer than a hash.
+func vpC10SoundPath(n int) {
+	items := vpItems(n, 1)
+	root, genuine := ProofsFromByteSlices(items)
+	aunts := vp.Range("aunts", 0, 3)
+	proof := &Proof{Total: int64(n), Index: vp.Int64("proof.Index"), LeafHash: vp.Bytes("proof.LeafHash", 32)}
+	long := vp.Range("long-aunt", 0, 3) // the aunt with trailing bytes (3 = none)
+	for i := 0; i < aunts; i++ {
+		a := vp.Bytes("proof.Aunt", 32)
+		if i == long {
+			a = append(a, vp.Bytes("aunt-tail", 5)...)
+		}
+		proof.Aunts = append(proof.Aunts, a)
+	}
+	leaf := vp.Bytes("leaf", 1)
+	if proof.Verify(root, leaf) != nil {
+		vp.Reach("rejected")
+		return
+	}
+	vp.Reach("accepted")
+	vp.Assert(proof.Index >= 0 && proof.Index < int64(n), "C10.verify.index-in-range")
+	g := genuine[int(proof.Index)]
+	vp.Assert(len(proof.Aunts) == len(g.Aunts), "C10.verify.accepted-path-has-the-genuine-length")
+	for i := range proof.Aunts {
+		if i < len(g.Aunts) {
+			vp.Assert(bytes.Equal(proof.Aunts[i], g.Aunts[i]), "C10.verify.accepted-path-is-the-genuine-path")
+		}
+	}
+}
+
+func VP_C10_SoundPath_n2() { vpC10SoundPath(2) }
+func VP_C10_SoundPath_n3() { vpC10SoundPath(3) }
+func VP_C10_SoundPath_n4() { vpC10SoundPath(4) }
